@@ -160,7 +160,8 @@ def run(res):
     specs = [dict(seed=res.seed, idx=i, mode=modes[i % 4], max_patches=(20 if quick else 36)) for i in range(n_scene)]
     for r in fw.run_parallel(scene_case, specs):
         res.absorb(r)
-    res.absorb(wrap_witness({}))
+    for r in fw.run_parallel(wrap_witness, [{}]):
+        res.absorb(r)
     for r in fw.run_parallel(prim_case, [dict(seed=res.seed, idx=i) for i in range(60 if quick else 1500)], workers=8):
         res.absorb(r)
     import props.C01 as C01
@@ -181,4 +182,4 @@ def replay(res, payload):
         if "mode" in case:
             res.absorb(scene_case(dict(seed=case["seed"], idx=case["idx"], mode=case["mode"], max_patches=36)))
         elif case.get("witness"):
-            res.absorb(wrap_witness({}))
+                res.absorb(wrap_witness({}))
